@@ -658,3 +658,111 @@ func evalConstInt(v ssa.Value, depth int) (int64, bool) {
 	}
 	return 0, false
 }
+
+// checkDecoderParam: the cmap format decoders receive the translation from
+// the codes of the file to characters (Mac Roman for platform 1). A decoder
+// has to apply it — or refuse tables for which one is given; a decoder that
+// takes the parameter and ignores it hands out a subtable that answers
+// character lookups with the glyph of a different character.
+func checkDecoderParam(w *World, r *Report) {
+	r.Rule("decoderparam: every function stored in cmap.decoders that can return a subtable calls its code-to-character parameter on the way (directly or through a phi that defaults it), or returns an error where the parameter is not nil: the translation of a Macintosh subtable is applied or refused, never dropped")
+	sp := w.SSAPkg[modPath+"/cmap"]
+	if sp == nil {
+		r.Fatal("package cmap not loaded")
+		return
+	}
+	n := 0
+	var names []string
+	for name := range sp.Members {
+		names = append(names, name)
+	}
+	sortStrings(names)
+	for _, name := range names {
+		fn, ok := sp.Members[name].(*ssa.Function)
+		if !ok || len(fn.Params) != 2 || len(fn.Blocks) == 0 {
+			continue
+		}
+		sig := fn.Signature
+		if sig.Results().Len() != 2 || sig.Results().At(0).Type().String() != modPath+"/cmap.Subtable" {
+			continue
+		}
+		if _, ok := fn.Params[1].Type().Underlying().(*types.Signature); !ok {
+			continue
+		}
+		// returns a subtable on some path?
+		returnsValue := false
+		for _, b := range fn.Blocks {
+			if rt, ok := b.Instrs[len(b.Instrs)-1].(*ssa.Return); ok {
+				if c, ok := rt.Results[0].(*ssa.Const); !ok || !c.IsNil() {
+					returnsValue = true
+				}
+			}
+		}
+		if !returnsValue {
+			continue // notImplemented
+		}
+		n++
+		key := r.MkKey("decoderparam", fnName(fn), "code translation parameter")
+		p := fn.Params[1]
+		called, refused := false, false
+		seen := map[ssa.Value]bool{}
+		var visit func(v ssa.Value)
+		visit = func(v ssa.Value) {
+			if seen[v] {
+				return
+			}
+			seen[v] = true
+			if v.Referrers() == nil {
+				return
+			}
+			for _, ref := range *v.Referrers() {
+				switch x := ref.(type) {
+				case *ssa.Call:
+					if x.Call.Value == v {
+						called = true
+					}
+					for _, a := range x.Call.Args {
+						if a == v {
+							called = true // handed on to a helper
+						}
+					}
+				case *ssa.Phi:
+					visit(x)
+				case *ssa.MakeClosure:
+					called = true
+				case *ssa.BinOp:
+					// nil test whose non-nil side returns an error
+					if (x.Op == token.NEQ || x.Op == token.EQL) && x.Referrers() != nil {
+						for _, r2 := range *x.Referrers() {
+							ifi, ok := r2.(*ssa.If)
+							if !ok {
+								continue
+							}
+							side := ifi.Block().Succs[0]
+							if x.Op == token.EQL {
+								side = ifi.Block().Succs[1]
+							}
+							if rt, ok := side.Instrs[len(side.Instrs)-1].(*ssa.Return); ok && len(rt.Results) == 2 {
+								if c, ok := rt.Results[1].(*ssa.Const); !ok || !c.IsNil() {
+									refused = true
+								}
+							}
+						}
+					}
+				}
+			}
+		}
+		visit(p)
+		switch {
+		case called:
+			r.OK("decoderparam", key, w.Pos(fn.Pos()), "applies the translation")
+		case refused:
+			r.OK("decoderparam", key, w.Pos(fn.Pos()), "refuses tables that need a translation")
+		default:
+			r.Fail("decoderparam", key, w.Pos(fn.Pos()), "the decoder receives the code-to-character translation and neither applies it nor refuses the table: for a Macintosh subtable the result answers a lookup of a character with the glyph stored for the code of the same number (ä, U+00E4, gets the glyph of Mac Roman 0xE4, ‰)", nil)
+		}
+	}
+	if n < 3 {
+		r.Fail("decoderparam", r.MkKey("decoderparam", "cmap", "decoders"), "-", "fewer than three format decoders found in package cmap", nil)
+	}
+}
